@@ -111,6 +111,8 @@ var vpTypes = map[string]reflect.Type{
 	"any":  reflect.TypeOf((*any)(nil)).Elem(),
 	"pint": reflect.TypeOf((*int)(nil)), "pstr": reflect.TypeOf((*string)(nil)),
 	"struct": reflect.TypeOf(vpInner{}), "pstruct": reflect.TypeOf((*vpInner)(nil)),
+	"int64": reflect.TypeOf(int64(0)), "int32": reflect.TypeOf(int32(0)), "int8": reflect.TypeOf(int8(0)), "uint16": reflect.TypeOf(uint16(0)),
+	"float32": reflect.TypeOf(float32(0)), "puint8": reflect.TypeOf((*uint8)(nil)),
 }
 
 // a value the field holds BEFORE the start (constructor defaults): binding must replace it by exactly the configured value
@@ -229,7 +231,11 @@ func runVP(c *VPCase) map[string]any {
 		}
 	case "expr":
 		doc := fmt.Sprintf("a: %s\nb: %s\n", c.Cfg["a"], c.Cfg["b"])
-		ok, val, p := bindOnce(vpTypes["any"], fmt.Sprintf(`value:%q`, "#{"+c.Text+"}"), doc)
+		et := vpTypes["any"]
+		if t, known := vpTypes[c.FType]; known && c.FType != "" {
+			et = t // a numeric result bound into a sized / unsigned / float / pointer field
+		}
+		ok, val, p := bindOnce(et, fmt.Sprintf(`value:%q`, "#{"+c.Text+"}"), doc)
 		got := "err"
 		if ok {
 			got = val[strings.Index(val, ":")+1:]
@@ -238,7 +244,7 @@ func runVP(c *VPCase) map[string]any {
 				got = str // a string result: compare its text
 			}
 		}
-		out["text"], out["cfg"], out["want"], out["got"], out["panic"] = c.Text, c.Cfg, c.Val, got, p
+		out["text"], out["cfg"], out["want"], out["got"], out["panic"], out["ftype"] = c.Text, c.Cfg, c.Val, got, p, c.FType
 	case "missing":
 		var tag string
 		opt := ""
